@@ -403,6 +403,9 @@ def finish(check, tier, seed, jobs, results, known, wall, budget):
     if not samples:
         samples = [dict(job=j) for j in jobs[:3]] or [dict(note='no job ran')]
 
+    if os.environ.get('VERIF_JOBSTATS'):
+        for r in sorted(results, key=lambda r: -r['wall_s'])[:int(os.environ['VERIF_JOBSTATS'])]:
+            print('  job %.1fs paths=%d unknown=%d exhaustive=%s %s' % (r['wall_s'], r['stats']['paths'], r['stats']['unknown'], r['exhaustive'], json.dumps(r['job'], default=str)[:150]))
     os.makedirs(os.path.join(EVDIR, 'replays'), exist_ok=True)
     lines = []
     # known findings: one line per listed class actually seen
